@@ -6,7 +6,7 @@ from sexpr import enc, hexs
 from odata_query import ast
 
 import os
-PROP_MODS = ["ODataVerif.Tie.Sql", "ODataVerif.Props.C07"] + (["ODataVerif.Props.C07Lex"] if os.path.exists(common.lean_module_path("ODataVerif.Props.C07Lex")) else [])
+PROP_MODS = ["ODataVerif.Tie.Sql", "ODataVerif.Props.C07"] + ["ODataVerif.Props.C07Lex", "ODataVerif.Props.C07Shape"]
 BENIGN = "x"
 KF_ESCAPE = "C07:sql/base.py:_to_pattern:escape-clause"
 
